@@ -18,7 +18,11 @@ func indexSep(pat string) (int, int) {
 		switch i := strings.IndexAny(pat, `/\`); {
 		case i == -1:
 			return -1, 0
-		case pat[i] == '\\' && i+1 < len(pat):
+		case pat[i] == '\\':
+			if i+1 == len(pat) {
+				// a backslash at the end escapes nothing
+				return -1, 0
+			}
 			if pat[i+1] == '/' {
 				return n - len(pat[i:]), 2
 			}
